@@ -127,6 +127,11 @@ def gen_random(rnd):
             for _ in range(rnd.randrange(0, 9)):
                 v = rnd.choice(boundary_values(bits) + [rnd.randrange(-(1 << bits) + 1, 1 << bits)] * 12)
                 if rnd.random() < 0.12:
+                    # a value computed from the address of the directive itself (every copy of a repeat body has its own)
+                    ops.append(rnd.choice([("bin", "%", ("dot",), apm.num(rnd.choice([4, 7, 16]))), ("bin", "&", ("bin", "/", ("dot",), apm.num(2)), apm.num(0o177)),
+                                           ("bin", "&", ("bin", ">>", ("dot",), apm.num(1)), apm.num(0o77)), ("bin", "&", ("bin", "<<", ("dot",), apm.num(1)), apm.num(0o376)),
+                                           ("bin", "&", ("dot",), apm.num(0o377))]))
+                elif rnd.random() < 0.12:
                     # a character literal as a data value: its bytes in the output charset, which then have to fit the field
                     pool = [c for c in REPERTOIRE[charset] if c.isalnum() or ord(c) > 0x7F]
                     ops.append(("chr", rnd.choice(pool) if rnd.random() < 0.7 else rnd.choice(pool) + rnd.choice(pool)))
@@ -135,7 +140,7 @@ def gen_random(rnd):
                     consts[nm] = v
                     ops.append(("sym", nm))
                 else:
-                    ops.append(apm.num(v, rnd.choice([None, "d", "x"])))
+                    ops.append(apm.num(v, rnd.choice([None, "d", "x", "^D", "^X", "^O", "^B", "0o", "b"])))
             st = apm.data(d, *ops)
             if rnd.random() < 0.6 and bits > 8:
                 stmts.append(apm.simple(".even"))
@@ -147,13 +152,15 @@ def gen_random(rnd):
                 k = rnd.random()
                 if k < 0.25:
                     v = rnd.choice([0, 1, 10, 127, 128, 255, rnd.randrange(256)])
-                    if rnd.random() < 0.4:
+                    if rnd.random() < 0.15:
+                        chunks.append(("n", rnd.choice([("bin", "%", ("dot",), apm.num(rnd.choice([4, 7, 100]))), ("bin", "&", ("bin", "/", ("dot",), apm.num(2)), apm.num(0o177))])))
+                    elif rnd.random() < 0.4:
                         # a code given by a constant that may be defined further down: the directive cannot be evaluated when it is met
                         nm = f"c{len(consts)}"
                         consts[nm] = v
                         chunks.append(("n", ("sym", nm)))
                     else:
-                        chunks.append(("n", apm.num(v, rnd.choice([None, "d", "x"]))))
+                        chunks.append(("n", apm.num(v if rnd.random() < 0.9 else -v, rnd.choice([None, "d", "x", "^D", "^X", "^O"]))))
                 else:
                     pool = REPERTOIRE[charset] + ("\n\t\r\\'\"/\x01\x7f" if rnd.random() < 0.5 else "")
                     if rnd.random() < 0.08 and OUTSIDE[charset]:
@@ -166,8 +173,8 @@ def gen_random(rnd):
             stmts.append(st)
             tags.append(f"{st.d}|chunks{len(chunks)}|{charset}")
         elif r < 0.8:
-            v = rnd.choice([0, 1, 2, 5, 100, 1000, -1])
-            stmts.append(apm.blk(rnd.choice([".blkb", ".blkw"]), apm.num(v, rnd.choice([None, "d"]))))
+            v = rnd.choice([0, 1, 2, 5, 100, 1000, -1, -2, -3])
+            stmts.append(apm.blk(rnd.choice([".blkb", ".blkw"]), apm.num(v, rnd.choice([None, "d", "^D", "^O", "^X"]))))
             tags.append(f"blk|{v}|{charset}")
         elif r < 0.9:
             stmts.append(apm.simple(rnd.choice([".even", ".odd"])))
